@@ -207,8 +207,83 @@ func (c *ctx) joinBatch(n int, concurrent bool) error {
 	return nil
 }
 
+// HomeNSReq flow and malformed requests through the same handler
+func (c *ctx) joinMisc(n int) error {
+	known := map[lorawan.EUI64]lorawan.NetID{}
+	h, err := joinserver.NewHandler(joinserver.HandlerConfig{
+		GetDeviceKeysByDevEUIFunc: func(e lorawan.EUI64) (joinserver.DeviceKeys, error) {
+			return joinserver.DeviceKeys{}, joinserver.ErrDevEUINotFound
+		},
+		GetHomeNetIDByDevEUIFunc: func(e lorawan.EUI64) (lorawan.NetID, error) {
+			if n, ok := known[e]; ok {
+				return n, nil
+			}
+			return lorawan.NetID{}, joinserver.ErrDevEUINotFound
+		},
+	})
+	if err != nil {
+		return err
+	}
+	serve := func(body []byte) (int, []byte, string) {
+		rec := httptest.NewRecorder()
+		res, _ := observe(func() error { h.ServeHTTP(rec, httptest.NewRequest("POST", "/", bytes.NewReader(body))); return nil })
+		return rec.Code, rec.Body.Bytes(), res
+	}
+	for i := 0; i < n; i++ {
+		var dev lorawan.EUI64
+		copy(dev[:], c.bytesN(8))
+		var nid lorawan.NetID
+		copy(nid[:], c.bytesN(3))
+		isKnown := c.rnd.Intn(3) != 0
+		if isKnown {
+			known[dev] = nid
+		}
+		txid := c.rnd.Uint32()
+		sender, receiver := hex.EncodeToString(c.bytesN(3)), hex.EncodeToString(c.bytesN(8))
+		body, _ := json.Marshal(backend.HomeNSReqPayload{BasePayload: backend.BasePayload{ProtocolVersion: "1.0", SenderID: sender, ReceiverID: receiver, TransactionID: txid, MessageType: backend.HomeNSReq}, DevEUI: dev})
+		status, out, res := serve(body)
+		var ans backend.HomeNSAnsPayload
+		perr := ""
+		if err := json.Unmarshal(out, &ans); err != nil {
+			perr = "error"
+		}
+		c.emit(M{"ev": "homens", "known": isKnown, "netid": bs(nid[:]), "txid": le32(txid), "sender": bs([]byte(sender)), "receiver": bs([]byte(receiver)), "http": status, "panic": res,
+			"answer": M{"parse": perr, "code": string(ans.Result.ResultCode), "sender": bs([]byte(ans.SenderID)), "receiver": bs([]byte(ans.ReceiverID)), "txid": le32(ans.TransactionID), "msgtype": string(ans.MessageType), "hnetid": bs(ans.HNetID[:])}})
+		// a malformed variant of a request
+		var bad []byte
+		what := ""
+		switch c.rnd.Intn(6) {
+		case 0:
+			bad, what = body[:c.rnd.Intn(len(body))], "truncated"
+		case 1:
+			bad, what = []byte(`{"MessageType":"Nope","TransactionID":1}`), "unknown-message-type"
+		case 2:
+			bad, what = []byte(`{"MessageType":"JoinReq","PHYPayload":"zz"}`), "bad-hex"
+		case 3:
+			bad, what = []byte(`{"MessageType":"JoinReq","DevEUI":"0102"}`), "short-eui"
+		case 4:
+			bad, what = c.bytesN(c.rnd.Intn(64)), "random-bytes"
+		default:
+			bad, what = []byte(`{"MessageType":"RejoinReq","DevEUI":"0102030405060708","PHYPayload":"c0","SenderID":"010203","ReceiverID":"0102030405060708"}`), "short-phypayload"
+		}
+		status, out, res = serve(bad)
+		var r backend.JoinAnsPayload
+		json.Unmarshal(out, &r)
+		code := string(r.Result.ResultCode)
+		if code == "" {
+			var rr backend.Result
+			json.Unmarshal(out, &rr)
+			code = string(rr.ResultCode)
+		}
+		c.emit(M{"ev": "joinbad", "what": what, "http": status, "panic": res, "code": code})
+	}
+	return nil
+}
+
 func drvJoin(c *ctx) error {
 	switch c.mode {
+	case "misc":
+		return c.joinMisc(c.n)
 	case "requests":
 		done := 0
 		for done < c.n {
